@@ -3,6 +3,7 @@ package props
 import (
 	"bytes"
 	"fmt"
+	"strings"
 	"testing"
 
 	"rendsim/kernel"
@@ -74,6 +75,10 @@ func execC10(t *testing.T, p Plan, src kernel.Source) Result {
 	return inBubble(t, p.Seed, src, func(w *kernel.World, res *Result) {
 		w.LogEvents = p.X["log"] != 0
 		w.SegMode = p.Seg
+		// object pools poison on Put and report double Puts: an error path that returns a
+		// pooled header twice lets two connections share it later ("other connections are
+		// unaffected" would then depend on luck)
+		w.Run.Poison = true
 		d := stack.Build(w, p.Cfg, nil)
 		victim := w.Connect(p.Conns[0].Port)
 		w.Settle()
@@ -248,12 +253,11 @@ func execC10(t *testing.T, p Plan, src kernel.Source) Result {
 			}
 		}
 		w.Disarm()
-		for k, f := range w.Stat.FaultsFired {
-			if f > 0 {
-				_ = k
-			}
-		}
 		if res.V != nil {
+			return
+		}
+		if faults := w.Run.TakeFaults(); len(faults) > 0 {
+			viol(len(p.Steps), "pool_misuse", fclass+"/"+p.Cfg.L1, "%s: while handling the fault rend misused a shared object pool (%s); the object can now be handed to two connections at once", faultDesc, strings.Join(faults, "; "))
 			return
 		}
 		// fresh connections read every victim key: never the pre-write value after an ack
